@@ -138,7 +138,7 @@ def check(prog, run):
 
     # ---- T4 disable switch and deprecated filtering
     r = run.rule("T4", "the disable switch hides exactly the three meta fields (checked inside the meta-name branch, before any "
-                       "meta field is returned); includeDeprecated resolvers keep a member iff it is not deprecated or the flag is set", 4)
+                       "meta field is returned); includeDeprecated resolvers keep a member iff it is not deprecated or the flag is set", 2)
     fdn = prog.get_func(WRAP, "ResolutionContext.field_definition")
     run.looked_at(fdn)
     meta_if = None
@@ -165,6 +165,26 @@ def check(prog, run):
         assigns_before = [x for x in ast.walk(meta_if) if isinstance(x, ast.Assign) and "INTROSPECTION_FIELD" in ast.unparse(x.value) and x.lineno < s0.lineno]
         if assigns_before:
             run.report(r, "%s:ResolutionContext.field_definition:switch-order" % WRAP, fdn.where(s0), "a meta field is selected before the disable switch is consulted")
+    # the members' own definition of `deprecated` (Field: bool(reason); EnumValue: reason is not None) is what
+    # isDeprecated reports, so the visibility filter must use that very attribute
+    n_filters = 0
+    for n in ast.walk(m.tree):
+        if isinstance(n, (ast.ListComp, ast.GeneratorExp)) and n.generators and n.generators[0].ifs:
+            cond = n.generators[0].ifs[0]
+            var = ast.unparse(n.generators[0].target)
+            attrs = {x.attr for x in ast.walk(cond) if isinstance(x, ast.Attribute) and ast.unparse(x.value) == var}
+            if not (attrs & {"deprecated", "deprecation_reason", "is_deprecated"}):
+                continue
+            n_filters += 1
+            r.instance("visibility filter `%s` reads %s" % (" ".join(ast.unparse(cond).split()), sorted(attrs)))
+            if "deprecated" not in attrs:
+                run.report(r, "%s:deprecated-filter-attribute(%s)" % (INTRO, ",".join(sorted(attrs))), "src/py_gql/schema/introspection.py:%d" % n.lineno,
+                           "deprecated members are filtered on %s instead of the member's `deprecated` flag: EnumValue.deprecated is "
+                           "`deprecation_reason is not None`, so a value deprecated with an empty reason stays listed while reporting "
+                           "isDeprecated: true" % sorted(attrs))
+    if n_filters < 2:
+        run.report(r, "%s:deprecated-filter-missing" % INTRO, "src/py_gql/schema/introspection.py",
+                   "fewer than two includeDeprecated filters (fields and enumValues) found: %d" % n_filters)
     for e in m.assigns.get("__Type__", []):
         for n in ast.walk(e):
             if isinstance(n, ast.ListComp) and n.generators and n.generators[0].ifs:
